@@ -1,6 +1,7 @@
 import NodisVerif.Proofs.C08Others
 import NodisVerif.Proofs.C08Tie
 import NodisVerif.Proofs.C16Handlers
+import NodisVerif.Proofs.GateInv
 /-
   C08 — MULTI/EXEC runs the queue exactly once, in order, isolated — or not at all.
 
@@ -13,8 +14,11 @@ import NodisVerif.Proofs.C16Handlers
   served in the middle of the transaction" is formalised at COMMAND granularity: the queued closures
   of one EXEC run back to back, each on exactly the store its predecessor left
   (`exec_atomic_at_command_granularity`).  Isolation against *thread-level* interleavings inside
-  the real server (two goroutines inside their handlers at the same time; EXEC holds no global lock)
-  is NOT covered by this model.
+  the real server (several goroutines inside their handlers at the same time) is the subject of the
+  last section: the gate `store.execMu` as a transition system (Model/Gate.lean) over the steps the
+  implementation reports, for every schedule (`exec_section_isolated`, `exec_section_isolated_trace`,
+  `watch_check_and_bodies_inside_section`).  Goroutines that serve no connection (embedded callers,
+  background eviction) are outside the gate: the theorems say so explicitly.
 
   Model deviations from the Redis reference that are visible here (not part of C08's text, reported):
   * DISCARD outside MULTI replies OK (Redis: "ERR DISCARD without MULTI") — `discard_runs_none` holds
@@ -361,8 +365,80 @@ example : RegWF sampleServer := by
   rintro i x ⟨ids, h, _⟩
   simp [sampleServer, AList.get?, Server.setConn] at h
 
-/- UNPROVED: nothing.  Out of the model's scope (said above, not a gap of the proofs): isolation of an
-   EXEC against thread-level interleavings inside the real server; disconnects are modelled as "the
-   connection sends nothing more". -/
+/-! ## isolation under real concurrency: the gate that makes EXEC exclusive
+
+  `Gate.step` is the protocol of `store.execMu` as `Serve`, `blockingPop` and `exec` use it; the recorded
+  trace of every concurrent scenario over TCP is replayed through it (a rejected step = the
+  implementation left the protocol).  The theorems hold for every run of the transition system, i.e.
+  for every schedule of any number of connections, embedded callers and background goroutines. -/
+section gate
+open NodisVerif.Gate
+
+/-- In every reachable state, a goroutine that holds the gate exclusively (it is serving EXEC) is its
+    only holder. -/
+theorem exec_gate_exclusive (es : List Ev) (s : GState) (hr : Gate.run {} es = some s) (g : G)
+    (hx : s.holdsX g = true) : s.holders = [(g, .x)] :=
+  x_holder_alone (inv_run es {} s inv_init hr) hx
+
+/-- In every reachable state in which `g` is inside EXEC, every open transaction of a goroutine that
+    serves a connection is `g`'s own: no command of another client is in progress. -/
+theorem exec_section_isolated (es : List Ev) (s : GState) (hr : Gate.run {} es = some s) (g : G)
+    (hx : s.holdsX g = true) (t : T) (g' : G) (ha : (t, g') ∈ s.active) (hc : s.isClient g' = true) : g' = g := by
+  have hi := inv_run es {} s inv_init hr
+  exact holder_is_g hi hx (hi.2 _ ha hc)
+
+/-- Every step on the keyspace or on watch flags (transaction begin / end, watch signal, watch check,
+    queued body) that the protocol accepts while `g` is inside EXEC is `g`'s own - or comes from a
+    goroutine that serves no connection. -/
+theorem exec_section_steps (es : List Ev) (s : GState) (hr : Gate.run {} es = some s) (g : G)
+    (hx : s.holdsX g = true) (e : Ev) (s' : GState) (hs : Gate.step s e = some s') (g' : G)
+    (ha : e.actor = some g') (hc : s.isClient g' = true) : g' = g :=
+  step_inside_section (inv_run es {} s inv_init hr) hx hs ha hc
+
+/-- Trace form: from the moment `g` has entered EXEC until it leaves (no `gout g` in the segment), in
+    EVERY continuation of the run, every accepted keyspace step is `g`'s own or comes from a goroutine
+    that serves no connection at that moment. -/
+theorem exec_section_isolated_trace (pre seg : List Ev) (s : GState) (hr : Gate.run {} pre = some s)
+    (g : G) (hx : s.holdsX g = true) (hn : Ev.gout g ∉ seg) : SegOk g s seg :=
+  segment_inside_section seg s g (inv_run pre {} s inv_init hr) hx hn
+
+/-- EXEC's look at its watch flags and every queued body happen inside the exclusive section (the
+    protocol accepts `chk` / `run` only there), and the section lasts until `g` itself leaves: between
+    the check and the last body no other client's write or signal can be accepted. -/
+theorem watch_check_and_bodies_inside_section (es : List Ev) (s : GState) (hr : Gate.run {} es = some s)
+    (g : G) (s' : GState) (hs : Gate.step s (.chk g) = some s' ∨ Gate.step s (.run g) = some s') :
+    s.holdsX g = true ∧ s' = s ∧
+    ∀ e s'', Gate.step s e = some s'' → e ≠ .gout g → s''.holdsX g = true := by
+  have hi := inv_run es {} s inv_init hr
+  have hx : s.holdsX g = true := by
+    rcases hs with hs | hs <;> simp only [Gate.step] at hs <;> split at hs <;> first | assumption | cases hs
+  have hs' : s' = s := by
+    rcases hs with hs | hs <;> simp only [Gate.step, hx, if_true] at hs <;> cases hs <;> rfl
+  exact ⟨hx, hs', fun e s'' h hne => section_lasts hi hx h hne⟩
+
+/-- A client's transaction covers the whole time from its begin to its end with the gate: a command
+    cannot leave the gate with a transaction open. -/
+theorem client_transactions_are_gated (es : List Ev) (s : GState) (hr : Gate.run {} es = some s)
+    (t : T) (g : G) (ha : (t, g) ∈ s.active) (hc : s.isClient g = true) : s.holds g = true :=
+  (inv_run es {} s inv_init hr).2 _ ha hc
+
+/-- The defect that was repaired (a blocking pop served outside the gate): goroutine 2 serves a
+    connection and begins a transaction (its pop) while goroutine 1 is inside EXEC - rejected. -/
+theorem ungated_pop_inside_exec_rejected :
+    Gate.run {} [.serve 1, .serve 2, .gin 1 .x, .chk 1, .run 1, .txb 1 10, .txe 1 10, .txb 2 11] = none := by decide
+
+/-- ... whereas the repaired order (the pop waits for the gate) is a run of the protocol, and so is an
+    embedded caller (goroutine 3, serves no connection) working during the EXEC: that is the stated limit. -/
+theorem gated_pop_after_exec_accepted :
+    (Gate.run {} [.serve 1, .serve 2, .gin 1 .x, .chk 1, .run 1, .txb 1 10, .txb 3 12, .txe 3 12, .txe 1 10, .gout 1,
+      .gin 2 .s, .txb 2 11, .sig 2, .txe 2 11, .gout 2]).isSome = true := by decide
+
+example : ∃ s, Gate.run {} [.serve 1, .gin 1 .x, .chk 1] = some s ∧ s.holdsX 1 = true := ⟨_, rfl, by decide⟩
+
+end gate
+
+/- UNPROVED: nothing.  Out of the model's scope (said above, not a gap of the proofs): callers of the
+   embedded API are not subject to the gate; disconnects are modelled as "the connection sends nothing
+   more". -/
 
 end NodisVerif.C08
